@@ -9,7 +9,7 @@
 From Coq Require Import ZArith List Bool Arith.
 Import ListNotations.
 Require Import PonyV.Model.C04Expr PonyV.Model.C04Parse PonyV.Model.C04Known PonyV.Model.C04FStr PonyV.Gen.Priority
-               PonyV.Proofs.C04Table PonyV.Proofs.C04Parse PonyV.Proofs.C04FStrProofs PonyV.Proofs.C04Pony.
+               PonyV.Proofs.C04Table PonyV.Proofs.C04Parse PonyV.Proofs.C04Mono PonyV.Proofs.C04FStrProofs PonyV.Proofs.C04Pony.
 Open Scope nat_scope.
 
 (* (1) Finite table: wherever Python's grammar requires parentheses around a child (parent kind, position, child kind), the
@@ -32,6 +32,13 @@ Theorem C04_print_parse : forall st e,
   exists n, forall f, n <= f -> parse_top f (print st e) = Some e.
 Proof. exact print_parse_roundtrip. Qed.
 Print Assumptions C04_print_parse.
+
+(* fuel only decides whether the parser answers, never what: with whatever fuel, it never reads the printed tokens as another tree *)
+Theorem C04_print_parse_unique : forall st e,
+  good st e = true -> expr_kindb (ekind e) = true ->
+  forall f e', parse_top f (print st e) = Some e' -> e' = e.
+Proof. exact roundtrip_unique. Qed.
+Print Assumptions C04_print_parse_unique.
 
 (* the same inside a larger input: at any level the expression fits, followed by anything that cannot continue it *)
 Theorem C04_print_parse_prefix : forall st e lvl rest,
